@@ -8,7 +8,7 @@
     (TraverseSchema) and the construction of DFAContentModel from the converted tree (including the counting states
     used for the compact Loop form, whose intended semantics is the clause for [CLoop] in [Lc]) are tied to the code
     by the correspondence run only. *)
-From XV Require Import C08.Spec08 C08.Model08 C08.Proofs08a C08.Proofs08b C08.Proofs08c C08.Proofs08d C08.Proofs08e.
+From XV Require Import C08.Spec08 C08.Model08 C08.Proofs08a C08.Proofs08b C08.Proofs08c C08.Proofs08d C08.Proofs08e C08.Proofs08f.
 
 Notation u1 := 1%N. Notation u2 := 2%N. Notation u3 := 3%N. Notation u4 := 4%N.
 
@@ -158,3 +158,32 @@ Proof.
   exists ex_decls, (fun _ => true), [((u1, 1%N), [70%N]); ((u1, 3%N), [72%N])]. split; vm_compute; reflexivity.
 Qed.
 Print Assumptions T08_attr_prohibited_refuted.
+
+(** xsi:type: the two loops of SchemaValidator::validateElement (find the declared type among the ancestors of the
+    xsi:type; check the derivation method of EVERY type below it against the element's and the declared type's block
+    sets) accept exactly when the type is not abstract and is the declared type or derived from it by a chain with no
+    blocked step (3.3.4 clause 4.3 / 3.4.6), for every ancestry list, block sets and declared type *)
+Theorem T08_xsitype : forall d eb tb abstract up,
+  m_xsitype d eb tb abstract up = true <-> xsitype_ok d eb tb abstract up.
+Proof. exact m_xsitype_correct. Qed.
+Print Assumptions T08_xsitype.
+
+(** the decider used as oracle for xsi:type decides the specification *)
+Theorem T08_xsitype_dec : forall d eb tb abstract up,
+  xsitype_okb d eb tb abstract up = true <-> xsitype_ok d eb tb abstract up.
+Proof. exact xsitype_okb_correct. Qed.
+Print Assumptions T08_xsitype_dec.
+
+Example T08_xsitype_nonvacuous :
+  let up := [(3%N, DRestr); (2%N, DExt); (1%N, DRestr)] in        (* Leaf -restriction-> Mid -extension-> Base *)
+  let none := {| bk_ext := false; bk_restr := false |} in
+  let bext := {| bk_ext := true; bk_restr := false |} in
+  let bres := {| bk_ext := false; bk_restr := true |} in
+  m_xsitype 1 none none false up = true /\
+  m_xsitype 1 bext none false up = false /\
+  m_xsitype 1 none bres false up = false /\
+  m_xsitype 2 bext none false up = true /\
+  m_xsitype 3 bext bres false up = true /\
+  m_xsitype 1 none none true up = false /\
+  m_xsitype 4 none none false up = false.
+Proof. cbv zeta. repeat split; vm_compute; reflexivity. Qed.
